@@ -20,10 +20,11 @@ class FunctionReport:
         self.assumptions = set()
         self.mode = None
         self.case = None
+        self.callees = set()     # checked (non-abstract) callee contracts whose clauses were assumed at call sites
         self.outcomes = []       # (kind, hyps, result value | exception class, top_env) per path  (pyvc/xcheck.py)
 
 
-def verify_function(prog, reg, key, mode='int', case=None, pruning=True, max_paths=400):
+def verify_function(prog, reg, key, mode='int', case=None, pruning=True, max_paths=400, focus=None):
     fi = prog.func(key.split('#')[0])
     c = reg.contracts.get(key)
     if c is None:
@@ -39,6 +40,7 @@ def verify_function(prog, reg, key, mode='int', case=None, pruning=True, max_pat
         eng = Exec(prog, reg, num_sort=(I if mode == 'int' else REAL), pruning=pruning and c.pruning)
         eng.cur = c
         eng.cur_fi = fi
+        eng.focus = focus
         eng.view = c.view or c.variant
         eng.path_id = path_id
         eng.script = script
@@ -53,6 +55,7 @@ def verify_function(prog, reg, key, mode='int', case=None, pruning=True, max_pat
             return rep
         rep.obs.extend(eng.obs)
         rep.assumptions |= eng.assumptions_used
+        rep.callees |= eng.callee_used
         rep.paths += 1
         path_id += 1
         while script and script[-1][0] == script[-1][1] - 1:
@@ -128,6 +131,9 @@ def _run_path(eng, fi, c, case, rep, suffix):
     env2 = {k: v for k, v in final_locals.items() if not k.startswith('$')}     # final values of the locals ...
     env2.update(env)                                                          # ... parameters: their entry values
     env2['old'] = old
+    dprops = list(c.props)
+    if eng.focus is not None and eng.focus['cid'] not in dprops:
+        dprops.append(eng.focus['cid'])
     hyps = list(eng.facts) + list(eng.pc)
     rep.outcomes.append((outcome[0], hyps, outcome[1] if outcome[0] == 'normal' else outcome[1].cls, dict(env)))
     if outcome[0] == 'normal':
@@ -137,21 +143,33 @@ def _run_path(eng, fi, c, case, rep, suffix):
         for exc, rd in c.raises.items():
             if rd.get('always'):
                 eng.oblige(f'raises-always:{exc}:normal-exit', z3.BoolVal(False), kind='raises',
-                           props=rd.get('props') or c.props)
+                           props=rd.get('props') or dprops)
             mustp = rd.get('must') or rd.get('when')
             if mustp is not None and rd.get('iff', True):
                 terms = [t for _, t in eng.spec_terms(mustp, env2)]
                 eng.oblige(f'raises-iff:{exc}:normal-exit', z3.Not(z3.And(terms)), kind='raises',
-                           props=rd.get('props') or c.props)
+                           props=rd.get('props') or dprops)
+        # the same predicate listed under several properties is one obligation carrying all of them (a second copy
+        # would be discharged from the first one's staged goal - also when that first one is refuted)
+        grouped = []
         for tag, preds in c.ensures.items():
             for pred in preds:
-                for label, term in eng.spec_terms(pred, env2):
-                    eng.oblige(f'post:{label}', term, kind='post', props=[tag])
-                    eng.assume(term)        # staged: a clause, once an obligation, is a hypothesis for the later ones
+                for g in grouped:
+                    if g[0] is pred:
+                        g[1].append(tag)
+                        break
+                else:
+                    grouped.append((pred, [tag]))
+        for pred, tags in grouped:
+            if not eng.in_focus(tags):
+                continue
+            for label, term in eng.spec_terms(pred, env2):
+                eng.oblige(f'post:{label}', term, kind='post', props=list(tags))
+                eng.assume(term)        # staged: a clause, once an obligation, is a hypothesis for the later ones
         for chk in (c.effects_check or []):
             from . import hooks as _hooks
             _hooks.EFFECT_CHECKS[chk](eng, env)
-        eng.frame_check(eng.pre_state, c.modifies, env, 'normal', c.frame_props or c.props)
+        eng.frame_check(eng.pre_state, c.modifies, env, 'normal', c.frame_props or dprops)
     else:
         ex = outcome[1]
         rep.exits.append(('raise:' + ex.cls, f'{fi.qualname}/exit:{ex.cls}{suffix}#p{eng.path_id}', hyps))
@@ -163,12 +181,14 @@ def _run_path(eng, fi, c, case, rep, suffix):
         if rd.get('when') is not None:
             for label, term in eng.spec_terms(rd['when'], env2):
                 eng.oblige(f'raises-only-when:{ex.cls}:{label}', term, kind='raises',
-                           props=rd.get('props') or c.props)
+                           props=rd.get('props') or dprops)
         for tag, preds in (rd.get('ensures') or {}).items():
+            if not eng.in_focus([tag]):
+                continue
             for pred in preds:
                 for label, term in eng.spec_terms(pred, env2):
                     eng.oblige(f'xpost:{ex.cls}:{label}', term, kind='xpost', props=[tag])
-        eng.frame_check(eng.pre_state, rd.get('modifies', []), env, ex.cls, rd.get('props') or c.frame_props or c.props)
+        eng.frame_check(eng.pre_state, rd.get('modifies', []), env, ex.cls, rd.get('props') or c.frame_props or dprops)
 
 
 def verify_lemma(prog, reg, lem, mode='int'):
